@@ -377,6 +377,37 @@ fn handler_level(r: &mut Report, work: &str, seed: u64, slow: bool) {
             }
         }
     }
+    // A read that fails (file route whose file is missing, or is a directory) is the handler's own business - whether it
+    // panics or answers an error is not judged here - but the shared cache must come out of it usable: later requests
+    // through the same state are still served, from the cache or from disk.
+    {
+        let mut c3 = Config::default();
+        c3.logging.console = false;
+        c3.logging.level = humphrey_server::server::logger::LogLevel::Error;
+        c3.cache.size_limit = 4096;
+        c3.cache.time_limit = 60;
+        let st3 = Arc::new(AppState::from(c3));
+        std::fs::write(format!("{}/kept.txt", dir), b"kept").unwrap();
+        let good = format!("{}/kept.txt", dir);
+        for (k, bad) in [format!("{}/no-such-file.txt", dir), dir.to_string(), good.clone()].iter().enumerate() {
+            r.eval();
+            let first = hvcommon::util::catch_panic(|| file_handler(mk_req("/kept.txt"), st3.clone(), &good, 0));
+            let failed = hvcommon::util::catch_panic(|| file_handler(mk_req(&format!("/bad{}", k)), st3.clone(), bad, 0));
+            r.count(if failed.is_err() { "failed_reads_that_panicked" } else { "failed_reads_answered" }, 1);
+            let mut broken = None;
+            for (uri, path) in [("/kept.txt", &good), ("/kept-again.txt", &good)] {
+                match hvcommon::util::catch_panic(|| file_handler(mk_req(uri), st3.clone(), path, 0)) {
+                    Err((msg, loc)) => broken = Some(format!("{} panicked at {}: {}", uri, loc, msg.chars().take(80).collect::<String>())),
+                    Ok(resp) if u16::from(resp.status_code) != 200 || resp.body != b"kept" => broken = Some(format!("{} answered {} with {} bytes", uri, u16::from(resp.status_code), resp.body.len())),
+                    Ok(_) => r.count("requests_served_after_a_failed_read", 1),
+                }
+            }
+            if let (Some(why), Ok(_)) = (broken, &first) {
+                r.violation("C16/handler:cache-unusable-after-failed-read", format!("after a request whose file could not be read ({}), requests for a readable file through the same state fail: {}", bad, why), J::s(bad), replay.clone());
+                break;
+            }
+        }
+    }
     // direct expiry: an entry with time limit 1 must be gone after 2.1 s; with time limit 0 after one clock second
     let mut cache0 = mk_cache(100, 0);
     cache0.set("/z", 0, vec![5; 10], MimeType::from_extension("txt"));
